@@ -9,6 +9,7 @@ package core
 
 import (
 	"fmt"
+	"os"
 	"runtime"
 	"runtime/debug"
 	"strings"
@@ -26,6 +27,12 @@ func simDisable() (picks, multi, yields, sites, hash, diverge, spins uint64)
 
 //go:linkname simSetPlayback runtime.simSetPlayback
 func simSetPlayback(p *uint8, n int)
+
+//go:linkname simSetSiteTrace runtime.simSetSiteTrace
+func simSetSiteTrace(on bool)
+
+//go:linkname simGetSiteTrace runtime.simGetSiteTrace
+func simGetSiteTrace(i uint32) (pcs [4]uintptr, ok bool)
 
 //go:linkname simGetDecisions runtime.simGetDecisions
 func simGetDecisions(p *uint8, n int) (total int, overflow bool)
@@ -133,6 +140,36 @@ type Outcome struct {
 	WallMs   int64             `json:"wall_ms"`
 }
 
+// siteTraceFile (env SIM_SITETRACE=<path>): debugging aid for determinism
+// hunts. The call stack (4 frames) of every yield site of the LAST run of the
+// process is written there, one line per site; run the same seed in two
+// processes and diff the files to find the first diverging scheduling point.
+var siteTraceFile = os.Getenv("SIM_SITETRACE")
+
+func dumpSiteTrace() {
+	var sb strings.Builder
+	for i := uint32(0); ; i++ {
+		pcs, ok := simGetSiteTrace(i)
+		if !ok {
+			break
+		}
+		fmt.Fprintf(&sb, "%d", i)
+		for _, pc := range pcs {
+			if pc == 0 {
+				continue
+			}
+			f := runtime.FuncForPC(pc - 1)
+			if f == nil {
+				continue
+			}
+			_, line := f.FileLine(pc - 1)
+			fmt.Fprintf(&sb, " %s:%d", f.Name(), line)
+		}
+		sb.WriteByte('\n')
+	}
+	os.WriteFile(siteTraceFile, []byte(sb.String()), 0o644)
+}
+
 // GCBetween: run two GC cycles (emptying sync.Pools) before every run, which
 // isolates a run from pooled state left by its predecessors. It must be the
 // same for every run of a world (a GC changes the next run's sync.Pool slow
@@ -185,6 +222,7 @@ func Run(t *testing.T, sc Sched, wantLog, wantDec bool, body func(e *Env)) Outco
 				out.Panic = s + "\n" + string(debug.Stack())
 			}
 		}()
+		simSetSiteTrace(siteTraceFile != "")
 		simEnable(sc.SchedSeed, sc.AuxSeed, sc.YieldThr)
 		synctest.Test(t, func(t *testing.T) {
 			e.t0 = time.Now()
@@ -204,6 +242,9 @@ func Run(t *testing.T, sc Sched, wantLog, wantDec bool, body func(e *Env)) Outco
 	out.Viol, out.Probes, out.Faults, out.Notes = e.Viol, e.Probes, e.Faults, e.Notes
 	out.SimNs, out.Events, out.LogHash = simNs, e.Seq, e.logHash
 	out.WallMs = time.Since(wall0).Milliseconds()
+	if siteTraceFile != "" {
+		dumpSiteTrace()
+	}
 	if wantLog {
 		out.Log = e.log
 	}
